@@ -407,16 +407,11 @@ class StmtMixin:
     def feasible(self, st: State) -> bool:
         """path pruning: a branch whose path condition is unsatisfiable is dropped (sound: only
         `unsat` prunes; unknown / timeout keeps the path)"""
-        sol = z3.Solver()
-        sol.set("timeout", 250)
-        for f in self.global_facts:
-            sol.add(f)
-        for f in st.pc:
-            sol.add(f)
-        try:
-            return sol.check() != z3.unsat
-        except z3.Z3Exception:
-            return True
+        from .solve import quick_check, _has_quant
+        # Only the quantifier-free part of the path condition decides: that fragment is decidable, so the same paths are
+        # pruned on every run.  (With the quantified facts included the answer was `unsat` in one run and `unknown` in the
+        # next, and obligations on a sometimes-surviving infeasible path came and went.)
+        return str(quick_check([f for f in list(self.global_facts) + list(st.pc) if not _has_quant(f)], 5000000)) != "unsat"
 
     # ------------------------------------------------------------------ try / with
     def st_Try(self, node, st):
